@@ -1513,18 +1513,19 @@ pub fn gen_request(rng: &mut ChaCha20Rng, o: GenOpts) -> Request {
 
 impl Request {
     fn tunable_value(&mut self) -> Option<(&mut u64, bool)> {
+        // the designated item may have been removed by a later edit of the request
         match self.tunable {
-            Tunable::TIn(i) => Some((&mut self.t_in[i].value, true)),
-            Tunable::SSpend(i) => Some((&mut self.s_spend[i].value, true)),
-            Tunable::OSpend(i) => Some((&mut self.o_spend[i].value, true)),
-            Tunable::ISpend(i) => Some((&mut self.i_spend[i].value, true)),
-            Tunable::TOut(i) => match &mut self.t_out[i] {
-                TOut::Pay { value, .. } => Some((value, false)),
+            Tunable::TIn(i) => self.t_in.get_mut(i).map(|x| (&mut x.value, true)),
+            Tunable::SSpend(i) => self.s_spend.get_mut(i).map(|x| (&mut x.value, true)),
+            Tunable::OSpend(i) => self.o_spend.get_mut(i).map(|x| (&mut x.value, true)),
+            Tunable::ISpend(i) => self.i_spend.get_mut(i).map(|x| (&mut x.value, true)),
+            Tunable::TOut(i) => match self.t_out.get_mut(i) {
+                Some(TOut::Pay { value, .. }) => Some((value, false)),
                 _ => None,
             },
-            Tunable::SOut(i) => Some((&mut self.s_out[i].value, false)),
-            Tunable::OOut(i) => Some((&mut self.o_out[i].value, false)),
-            Tunable::IOut(i) => Some((&mut self.i_out[i].value, false)),
+            Tunable::SOut(i) => self.s_out.get_mut(i).map(|x| (&mut x.value, false)),
+            Tunable::OOut(i) => self.o_out.get_mut(i).map(|x| (&mut x.value, false)),
+            Tunable::IOut(i) => self.i_out.get_mut(i).map(|x| (&mut x.value, false)),
             Tunable::None => None,
         }
     }
